@@ -226,6 +226,16 @@ func (c *curvePoint) Double(a *curvePoint, pool *bnPool) {
 }
 
 func (c *curvePoint) Mul(a *curvePoint, scalar *big.Int, pool *bnPool) *curvePoint {
+	if scalar.Sign() < 0 {
+		// a·(-k) = (-a)·k; the loop below reads the bits of a non-negative scalar.
+		neg := newCurvePoint(pool)
+		neg.Negative(a)
+		neg.t.Set(a.t)
+		c.Mul(neg, new(big.Int).Neg(scalar), pool)
+		neg.Put(pool)
+		return c
+	}
+
 	sum := newCurvePoint(pool)
 	sum.SetInfinity()
 	t := newCurvePoint(pool)
